@@ -39,12 +39,15 @@ LEVEL_TEXT = ("Lean 4 theorems about executable models of the four solvers and o
               "under the property's own hypothesis that every tested pivot is exactly 0 or at least the tolerance. "
               "Models tied to the C++ by differential correspondence (Float with tolerance) plus an exact rational "
               "oracle on the implementation's answers.")
-LEVEL_NOTE = ("Theorems are about exact arithmetic; IEEE rounding, libm and the convergence of the Golub-Reinsch SVD "
-              "iteration are not proved. The algebra of SVD::svd is (Props/C01/SvdDecomp.lean: every Householder / Givens "
+LEVEL_NOTE = ("The algebra of SVD::svd is proved (Props/C01/SvdDecomp.lean: every Householder / Givens "
               "step of the transliteration Svd.decompose is an orthogonal transformation, so whenever its run returns, "
-              "A = U diag(W) V', V'V = 1, the columns of U with W != 0 are orthonormal, W >= 0); what the per-run numeric "
-              "certificate (tools/props/svd_cert.py) still stands for is that the double-precision run converges and that "
-              "the elements it treats as negligible are negligible. The LocalNetwork entry point is "
+              "A = U diag(W) V', V'V = 1, the columns of U with W != 0 are orthonormal, W >= 0), and every svd theorem is "
+              "stated without a factorisation certificate (C01_svd_decompose, C01_svd_solve_decompose, C01_adj_svd_decompose, "
+              "C01_net_svd_decompose: hypothesis = the run returned and the returned singular values are 0 or above "
+              "W_tol*max W); what the per-run numeric certificate (tools/props/svd_cert.py) still stands for is that the "
+              "double-precision run converges and that the elements it treats as negligible are negligible. "
+              + "What remains outside the theorems, precisely: (1) IEEE rounding and libm (theorems over exact ordered fields); (2) convergence of the QR iteration of SVD::svd = that the model Svd.decompose RETURNS (it throws NoConvergence after 30 sweeps per singular value; in exact arithmetic it reaches an exact zero only for special inputs); (3) the exact-zero reading of every negligibility / rank test: each solver theorem asks that every quantity its run compares with a tolerance is exactly 0 or above it (FactUnambiguous / SolveUnambiguous, UnambiguousF, Gso.Unambiguous, Svd.Unambiguous of the returned singular values; from an exact gap of A'PA: Props/C01/Gap.lean, Gap2.lean); (4) that the codes' ABSOLUTE tolerances (sqrt(eps) pivot tests of Envelope/BlockDiagonal/AdjCholDec) do not scale with the weights is a property of the real code recorded as known findings F22, C09-F2, C10-TINY, C19-envelope-defect-undercount, not something the theorems cover. "
+              + "The LocalNetwork entry point is "
               "covered from the assembled system on (Props/C01/NetFacade.lean, stream netfacade on real LocalNetwork "
               "objects; the cofactor accessors qxx/qbb/weight_obs/stdev_obs/wcoef_res are in the model and the stream, their "
               "theorems are C03_net_cofactors, C02_same_net, C08_net_datum, Props/C09Net.lean): the assembly itself (linearisation, revision, min_x list) is C05/C14/C08's, and its outputs "
